@@ -1,8 +1,10 @@
 CONSTANTS MaxEdits = 2
- Flaw_Paths = TRUE
- Flaw_NoOutput = TRUE
+ Flaw_DirNames = TRUE
+ Flaw_Paths = FALSE
+ Flaw_NoOutput = FALSE
+ Flaw_Args = FALSE
  Shape = 0
- Menu = "sound"
+ Menu = "nodir"
  EmitAll = FALSE
 SPECIFICATION Spec
 INVARIANTS C11a C11b C11c NoOp
